@@ -61,7 +61,7 @@ func genRearm(seed uint64, idx uint64) tlive.Scenario {
 	sc.Rearm = sp
 	sc.NG = sp.Callers
 	sc.Family = fmt.Sprintf("rearm|callers=%d|procs=%d|delay=%d|cancel=%d", sp.Callers, sp.Procs, sp.DelayNs, sp.CancelEvery)
-	if idx%5 == 4 {
+	if idx%3 == 2 {
 		// arrive while the last worker gives up
 		sp.ExitRaceUs = []int64{50, 100, 100, 200, 400}[r.Intn(5)]
 		sc.IdleUs = sp.ExitRaceUs
@@ -177,9 +177,13 @@ func runRearm(sc tlive.Scenario, seed uint64) childLine {
 	if verdict == "stall" && confirmed >= 3 {
 		st := stalls[0]
 		s := res.Snaps[st.SnapIndex]
+		what := "a due future was not started within 1 s in three runs of this scenario in a row although the machine was quiet (lock-held snapshot at the moment of giving up: watchers, tokens, pending)"
+		if s.Watchers == 0 && len(s.Heap) > 0 {
+			what = "a due future was not started within 1 s and the lock-held snapshot taken then shows pending futures but no worker (F0: a non-empty heap has a worker)"
+		}
 		l.Extra = map[string]any{"stalled_iteration": st.Iter, "caller": st.Caller, "waited_ms": float64(st.WaitedNs) / 1e6,
 			"canary_max_oversleep_ms": float64(st.CanaryNs) / 1e6, "watchers": s.Watchers, "tokens": s.Tokens, "pending": len(s.Heap),
-			"what": "a due future was not started within 1 s in three runs of this scenario in a row although the machine was quiet (lock-held snapshot at the moment of giving up: watchers, tokens, pending)"}
+			"what": what}
 	}
 	return l
 }
